@@ -67,7 +67,7 @@ def correspondence(ctx):
             m = bench.mapping(9, rng)
             objs = B.real_cons(bench, cons, m)
             texts = [(B.TXT[c] if c != "eq" else "") + m[r][0] for c, r in cons]
-            if any((not t.isascii()) or any(ch in t for ch in "|\\'\" \t\n") or m[r][0][0] in "<>=!*vV" for t, (c, r) in zip(texts, cons)):
+            if any((not t.isascii()) or any(ch in t for ch in "|\\'\" \t\n") or not m[r][0] or m[r][0][0] in "<>=!*vV" for t, (c, r) in zip(texts, cons)):
                 continue
             done += 1
             try:
